@@ -145,3 +145,43 @@ Definition welcome_example_statement : Prop :=
   aget N.eqb 1 (groups (fst (decline_welcome (fst (process_welcome ex_state (ex_inv 2))) 10))) = aget N.eqb 1 (groups ex_state).
 Lemma welcome_example : welcome_example_statement.
 Proof. unfold welcome_example_statement. split; [eexists; split; [vm_compute; reflexivity|reflexivity]|]. repeat split; vm_compute; reflexivity. Qed.
+
+(* ---- C08 on the invitation path: a new, decodable invitation to a group the user is NOT active in (never joined, declined,
+   or removed from) rewrites the stored record from the invitation - epoch and group data are those of the state the
+   joiner will be in - and accepting keeps them: the record of the joined group mirrors the MLS state joined *)
+Lemma invitation_refreshes_record s w id :
+  i_shape w = true -> aget N.eqb (i_wrapper w) (pwelcomes s) = None -> previewable s w = true ->
+  is_active s (i_gid w) = false -> i_id w = Some id ->
+  let s1 := fst (process_welcome s w) in
+  exists r, aget N.eqb (i_gid w) (groups s1) = Some r /\ g_state r = GS_PENDING /\ g_epoch r = i_epoch w /\ g_data r = i_data w.
+Proof.
+  intros Hs Hp Hv Ha Hid. unfold process_welcome. rewrite Hs, Hp, Hv, Ha, Hid. cbn [negb fst].
+  exists (mkG GS_PENDING (i_epoch w) (i_data w) None true).
+  cbn [groups set_welcomes set_pw set_groups]. rewrite gget_aset_same. repeat split; reflexivity.
+Qed.
+
+Lemma accept_record_mirrors_joined_state s id wr r :
+  aget N.eqb id (welcomes s) = Some wr -> previewable s (w_inv wr) = true ->
+  aget N.eqb (w_gid wr) (groups s) = Some r ->
+  exists r', aget N.eqb (w_gid wr) (groups (fst (accept_welcome s id))) = Some r' /\
+             g_state r' = GS_ACTIVE /\ g_epoch r' = i_epoch (w_inv wr) /\ g_data r' = i_data (w_inv wr) /\
+             aget N.eqb (w_gid wr) (mls (fst (accept_welcome s id))) = Some (i_state (w_inv wr)).
+Proof.
+  intros Hw Hp Hg. unfold accept_welcome. rewrite Hw, Hp. cbn [negb].
+  assert (Hg' : aget N.eqb (w_gid wr) (groups (set_welcomes (consume_kp (set_mls s (aset N.eqb (w_gid wr) (i_state (w_inv wr)) (mls s))) (i_kp (w_inv wr)))
+            (aset N.eqb id (mkW (w_gid wr) WS_ACCEPTED (w_wrapper wr) (w_inv wr)) (welcomes (consume_kp (set_mls s (aset N.eqb (w_gid wr) (i_state (w_inv wr)) (mls s))) (i_kp (w_inv wr))))))) = Some r).
+  { unfold consume_kp. destruct (aget N.eqb (i_kp (w_inv wr)) _) as [[|]|]; exact Hg. }
+  rewrite Hg'. cbn [fst].
+  exists (mkG GS_ACTIVE (i_epoch (w_inv wr)) (i_data (w_inv wr)) (g_last r) true).
+  cbn [groups set_groups mls set_welcomes]. rewrite gget_aset_same. repeat split; try reflexivity.
+  unfold consume_kp. destruct (aget N.eqb (i_kp (w_inv wr)) _) as [[|]|]; cbn; apply gget_aset_same.
+Qed.
+
+Lemma evict_deactivates s g : is_active (evict s g) g = false.
+Proof.
+  unfold evict, is_active. destruct (aget N.eqb g (groups s)) as [r|] eqn:E.
+  - destruct (g_state r =? GS_ACTIVE) eqn:Ea.
+    + cbn [groups set_groups]. rewrite gget_aset_same. reflexivity.
+    + rewrite E. exact Ea.
+  - rewrite E. reflexivity.
+Qed.
